@@ -11,6 +11,7 @@
     excluded class is exactly `tailStart`.
 -/
 import SfProofs.DwvwCalls
+import SfProofs.DwvwDec
 import SfProofs.DwvwState
 import SfModel.DwvwFile
 namespace Sf.C01Dwvw
@@ -77,6 +78,65 @@ theorem dwvw_short_exact (c : Cfg) (hw : c.ok) (cv : Conv) (v : Int) (hv : -3276
     omega
 
 example : toCaller {} .s16 (asr (toCodec {} .s16 (-32768)) (Cfg.shift ⟨12⟩) * 2 ^ (Cfg.shift ⟨12⟩)) = -32768 := by decide
+
+/-! ## C01: decode ∘ encode -/
+
+/-- every sequence of 32-bit caller values written to a file (any bit width 12 / 16 / 24, whatever follows the data —
+    the AIFF pad byte — in `extra`) and read back in one call of the same length comes back with exactly the low
+    `32 - bit_width` bits cleared; all wrap-around cases of the delta arithmetic are inside.  The one hypothesis on
+    the file, `dwm_maxsize ≤ 8 · length`, excludes files so short that the very first look-ahead passes the end (24 bit:
+    a single byte — the KF-DWVW-TAIL-CALL class at the first call). -/
+theorem dwvw_roundtrip (c : Cfg) (hw : c.ok) (xs : List Int) (hx : ∀ x ∈ xs, -2 ^ 31 ≤ x ∧ x < 2 ^ 31)
+    (extra : List Byte) (hfile : c.dwmMax ≤ 8 * (encodeAll c xs ++ extra).length) :
+    decodeAll c (encodeAll c xs ++ extra) xs.length = xs.map (fun p => asr p c.shift * 2 ^ c.shift) :=
+  dwvw_roundtrip_core c hw xs hx extra hfile
+
+/-- bit_width-bit samples (`q · 2^(32 - w)`, the low bits zero as C01 asks) come back bit-identical -/
+theorem dwvw_roundtrip_exact (c : Cfg) (hw : c.ok) (qs : List Int) (hq : ∀ q ∈ qs, -c.maxDelta ≤ q ∧ q < c.maxDelta)
+    (extra : List Byte) (hfile : c.dwmMax ≤ 8 * (encodeAll c (qs.map (· * 2 ^ c.shift)) ++ extra).length) :
+    decodeAll c (encodeAll c (qs.map (· * 2 ^ c.shift)) ++ extra) qs.length = qs.map (· * 2 ^ c.shift) := by
+  have hx : ∀ x ∈ qs.map (· * 2 ^ c.shift), -2 ^ 31 ≤ x ∧ x < 2 ^ 31 := by
+    intro x hx
+    obtain ⟨q, hq1, rfl⟩ := List.mem_map.mp hx
+    have := hq q hq1
+    obtain ⟨w⟩ := c
+    rcases hw with h | h | h <;> simp only at h <;> subst h <;>
+    · simp only [Cfg.maxDelta, Cfg.shift] at this ⊢
+      norm_num at this ⊢
+      omega
+  have := dwvw_roundtrip_core c hw (qs.map (· * 2 ^ c.shift)) hx extra hfile
+  rw [List.length_map] at this
+  rw [this, List.map_map]
+  apply List.map_congr_left
+  intro q _
+  exact quant_exact c.shift q
+
+/-- the closed file always holds at least one byte (the twelve flush samples alone are twelve bits) -/
+theorem dwvw_file_nonempty (c : Cfg) (hw : c.ok) (xs : List Int) : 1 ≤ (encodeAll c xs).length := by
+  obtain ⟨p, hp, hb⟩ := encodeAll_bits c xs
+  have hF := codes_flush_length c hw (endSt c 0 0 xs).1 (endSt c 0 0 xs).2
+  have := congrArg List.length hb
+  simp only [List.length_append, bytesBits_length] at this
+  omega
+
+/-- 12 and 16 bit: every file is long enough for the first look-ahead, so the round trip is unconditional -/
+theorem dwvw_roundtrip_12_16 (c : Cfg) (hw : c.w = 12 ∨ c.w = 16) (xs : List Int)
+    (hx : ∀ x ∈ xs, -2 ^ 31 ≤ x ∧ x < 2 ^ 31) :
+    decodeAll c (encodeAll c xs) xs.length = xs.map (fun p => asr p c.shift * 2 ^ c.shift) := by
+  have ok : c.ok := by rcases hw with h | h <;> simp [Cfg.ok, h]
+  have hlen := dwvw_file_nonempty c ok xs
+  have := dwvw_roundtrip_core c ok xs hx [] (by
+    have : c.dwmMax ≤ 8 := by rcases hw with h | h <;> simp [Cfg.dwmMax, h]
+    simp only [List.append_nil]; omega)
+  simpa using this
+
+/-- 24 bit really needs the hypothesis: three zero samples make the one-byte file FF, and nothing is read back -/
+theorem dwvw_short_file_witness : encodeAll ⟨24⟩ [0, 0, 0] = [255] ∧ decodeAll ⟨24⟩ [255] 3 = [] := by decide +kernel
+
+/-- full scale down, full scale up, and the two ±max_delta special cases, 16 bit -/
+example : encodeAll ⟨16⟩ [0x7FFF0000, -0x80000000, 0, -0x80000000, 0x7FFF0000] = [127, 255, 132, 63, 255, 223, 255, 249, 79, 255, 249, 127] ∧
+    decodeAll ⟨16⟩ [127, 255, 132, 63, 255, 223, 255, 249, 79, 255, 249, 127] 5 = [0x7FFF0000, -0x80000000, 0, -0x80000000, 0x7FFF0000] := by
+  decide +kernel
 
 /-! ## C06: read partition — known finding KF-DWVW-TAIL-CALL -/
 
